@@ -39,4 +39,13 @@ package auth
 //@   calls append#3: requires $1 == q["api_token"]
 //@   calls append#3: set took = true
 //@   calls append#1: requires $1[0] == toks[1]
+//@   # basic auth: the password is a token whatever the user name is (empty included)
+//@   ghost bok bool = false
+//@   ghost bpw string = ""
+//@   ghost took2 bool = false
+//@   calls Request.BasicAuth#1: set bok = $r2
+//@   calls Request.BasicAuth#1: set bpw = $r1
+//@   calls append#2: requires $1[0] == bpw
+//@   calls append#2: set took2 = true
+//@   calls url.ParseQuery#1: requires bok ==> took2
 //@   calls Credentials.loadTokenFromCookie#1: requires has(q, "api_token") ==> took
